@@ -190,7 +190,7 @@ pub fn subjects(tier: Tier) -> Vec<Subject> {
     }
     // generated programs
     let (jobs, _) = c01::family_jobs(Tier::Quick, &["S", "P", "D", "T", "X"]);
-    let step = (jobs.len() / tier.pick(250, 6000)).max(1);
+    let step = (jobs.len() / tier.pick(160, 6000)).max(1);
     for (i, j) in jobs.iter().enumerate() {
         if i % step == 0 {
             let mut p = j.prog.clone();
@@ -424,7 +424,7 @@ pub fn run(tier: Tier) -> i32 {
             'outer: for i in 0..cps.len() {
                 for j in (i + 1)..cps.len() {
                     for (pa, pb) in [(Perm::Reverse, Perm::Reverse), (Perm::Rotate(1), Perm::Reverse), (Perm::Reverse, Perm::Rotate(1))] {
-                        if !budget.ok() || (tier == Tier::Quick && n_pairs >= 150) {
+                        if !budget.ok() || (tier == Tier::Quick && n_pairs >= 80) {
                             break 'outer;
                         }
                         n_pairs += 1;
